@@ -342,6 +342,9 @@ func buildParserModel(p *Prog) (*parserModel, string) {
 		ts.succ = append(ts.succ, make([][]int32, alpha.N()+1))
 		return id, true
 	}
+	if base := initState(m, "dependency"); base.Status != stStuck {
+		m.Base = base // lookup tables filled by the package initialisers
+	}
 	st0 := m.NewState(parse, []Val{TapeStr{T: 0}}, 1)
 	var work []int32
 	for _, s := range m.Run(st0) {
